@@ -248,7 +248,32 @@ static void bar_setup(void) {
     vs_watch(&bar[i], sizeof bar[i]);
   }
 }
+// "bcrowd n r": n further (anonymous) participants of barrier 0, each waiting r times
+GHOST static int gb_arrive_anon(int* round) {
+  int k = (*round)++;
+  if (k < MAXROUNDS) bar_arrivals[0][k]++;
+  return k;
+}
+static long bar_crowd;
+static void* bar_crowd_body(void* p) {
+  int rounds = (int)(intptr_t)p, mine = 0;
+  for (int i = 0; i < rounds; i++) {
+    int k = gb_arrive_anon(&mine);
+    int r = fiber_barrier_wait(&bar[0]);
+    gb_return(0, -1, k, r);
+  }
+  return 0;
+}
 static int bar_do_op(int idx, op_t* op) {
+  if (!strcmp(op->name, "bcrowd")) {
+    for (int i = 0; i < op->a; i++) {
+      fiber_t* f = fiber_create(8192, &bar_crowd_body, (void*)(intptr_t)op->b);
+      if (!f) vs_violation("engine_limit", "fiber_create failed");
+      fiber_detach(f);
+    }
+    bar_crowd += op->a;
+    return 1;
+  }
   if (strcmp(op->name, "bwait")) return 0;
   int b = op->a % NB;
   int k = gb_arrive(b, idx);
@@ -269,6 +294,7 @@ GHOST static void bar_final(void) {
         if (bar_returns[b][k] == bar_count[b] && bar_serial[b][k] != 1)
           vs_violation("serial_count", "barrier %d round %d: %d serial fibers (expected exactly 1)", b, k + 1, bar_serial[b][k]);
       }
+  vs_label_max("crowd", (uint64_t)bar_crowd);
   vs_label_add("barrier_rounds", rounds);
   vs_label_add("barrier_blocked", bar_blocked);
   if (n && rounds >= 2 && bar_blocked > 0) rt_nontrivial("barrier");
